@@ -441,6 +441,11 @@ class Table(Vector):
 		if isinstance(spec, str):
 			return self[spec]
 		elif isinstance(spec, Vector):
+			if spec.ndims() == 2:
+				# (a table is several columns: taken for one, its columns would be read as its rows)
+				raise SerifTypeError(
+					"Column specification must be one column, got a table: pass its columns (t.cols()) or a list of names"
+				)
 			return spec
 		else:
 			raise SerifTypeError(
